@@ -123,3 +123,17 @@ Proof.
   split; [apply (HBracket [58; 58; 49]); reflexivity|]. split; [discriminate|]. vm_compute. reflexivity.
 Qed.
 Print Assumptions C09_example.
+
+(** Tie to the source: the lazy authority split and its getters are the ones yarl/_url.py
+    defines (re-translated from the working tree on every run; see the C17_source theorems), and the
+    constructor primes the per-object cache with exactly the values those getters would
+    compute (C07_source_encode_url). *)
+From Yarl Require Import Model.Url Model.GenTypes Generated.UrlGen Proofs.GenUrlProofs.
+Theorem C09_source_lazy_split : forall u : url,
+  netloc_parts u = match u_eager u with Some m => Ok m | None => gen_cache_netloc u end.
+Proof. exact gen_cache_netloc_ok. Qed.
+Print Assumptions C09_source_lazy_split.
+Theorem C09_source_encode_url : forall (O : oracles) (B : backend) (s : str),
+  same_outcome (gen_encode_url O B s) (encode_url O B s).
+Proof. exact gen_encode_url_ok. Qed.
+Print Assumptions C09_source_encode_url.
